@@ -161,7 +161,7 @@ def _be(v, w):
     return int(v).to_bytes(w, "big") if w else b""
 
 
-def write_history(revisions, r, header=b"%PDF-1.5\n", encrypt=None, trailer_extra=None):
+def write_history(revisions, r, header=b"%PDF-1.5\n", encrypt=None, trailer_extra=None, mutate=None):
     """revisions: list (oldest first) of dicts {defs: {objid: value}, form: table|stream|hybrid,
     packed: set(objids stored in object streams), eol: b'\\n'|b'\\r\\n'|b'\\r', root: objid, info: objid|None}.
     `r` is a random.Random used for the writer's free choices (W widths, /Index partition, subsection splits).
@@ -195,7 +195,10 @@ def write_history(revisions, r, header=b"%PDF-1.5\n", encrypt=None, trailer_extr
                     body += ser(packed[n]) + r.choice([b" ", b"\n"])
                     stm_entries[n] = (sid, k)
                 htxt = b" ".join(b"%d %d" % h for h in hdr) + b"\n"
-                direct[sid] = Stream({"Type": Name("ObjStm"), "N": len(g), "First": len(htxt)}, htxt + body)
+                sd = {"Type": Name("ObjStm"), "N": len(g), "First": len(htxt)}
+                if mutate is not None:
+                    mutate("objstm", sd)          # fault injection (C13): the writer's own dictionaries
+                direct[sid] = Stream(sd, htxt + body)
                 content_stm = (len(g), [x for h in hdr for x in h], [packed[n] for n in g])
                 rev.setdefault("_stms", {})[sid] = content_stm
         for n in sorted(direct):
@@ -211,6 +214,8 @@ def write_history(revisions, r, header=b"%PDF-1.5\n", encrypt=None, trailer_extr
             trailer["Prev"] = prev
         if trailer_extra:
             trailer.update(trailer_extra)
+        if mutate is not None:
+            mutate("trailer", trailer)
 
         def xref_stream(entries, extra):
             """entries: {objid: (type, f2, f3)} -> object text of an xref stream; returns (objid, bytes, sect)"""
@@ -252,6 +257,8 @@ def write_history(revisions, r, header=b"%PDF-1.5\n", encrypt=None, trailer_extr
                 d["Index"] = [x for rg in ranges for x in rg]
             d.update(extra)
             use_flate = r.random() < 0.4
+            if mutate is not None:
+                mutate("xrefstream", d)
             payload = __import__("zlib").compress(data) if use_flate else data
             if use_flate:
                 d["Filter"] = Name("FlateDecode")
@@ -309,6 +316,8 @@ def write_history(revisions, r, header=b"%PDF-1.5\n", encrypt=None, trailer_extr
             xpos = len(out)
             tr = dict(trailer)
             tr["XRefStm"] = spos
+            if mutate is not None:
+                mutate("hybridtrailer", tr)
             offs = dict(offsets)
             out += table_text(offs) + b"trailer" + eol + ser(tr) + eol
             secs.append(("table", {n: (p, 0) for n, p in offs.items()}))
